@@ -218,8 +218,8 @@ def apply_op(real_sf, model_sf, op, strings, lib, fmt):
         if not model.extra:
             model.extra = None
         return ["ok", None], ["ok", None]
-    if name in ("set_key", "get_key", "del_key", "contains", "move", "dict_pop", "dict_setdefault") \
-            and isinstance(op.get("key"), str):
+    if name in ("set_key", "get_key", "del_key", "contains", "move", "dict_pop", "dict_setdefault",
+                "rename_key") and isinstance(op.get("key"), str):
         # a key object built at run time: equal to, but not the same object as, any literal
         op = dict(op, key=(op["key"] + "x")[:-1])
     if name == "set_key":
@@ -279,6 +279,20 @@ def apply_op(real_sf, model_sf, op, strings, lib, fmt):
             model.delete(k)
             return v
         return outcome_of(lambda: real.pop(k)), outcome_of(mf)
+    if name == "rename_key":
+        # obj[new] = obj.pop(old): the very same value object now lives under another key
+        if is_smchart:
+            return None
+        k, new = op["key"], (op["new"] + "x")[:-1]
+
+        def rf():
+            real[new] = real.pop(k)
+
+        def mf():
+            v = model.get(k)
+            model.delete(k)
+            model.set(new, v)
+        return outcome_of(rf), outcome_of(mf)
     if name == "dict_popitem":
         if is_smchart:
             return None
